@@ -416,6 +416,11 @@ def gen_fixed(rng, book, templates, res):
                 res.count("line:signal-regions=%s" % (len(regions) if len(regions) < 4 else "4+"))
             else:
                 s = gen_string(rng, ex, table[name], mode)
+            # NOTE: no `+` is ever put inside a sequence / strand / signal string.  On the pinned tree a `+` there raises
+            # KeyError inside fix_seq, which compiler.py's `except KeyError` reports as "name not found" after the items
+            # before the `+` have already been fixed (e.g. `sequence x = ACGTA+` on x = a b fixes a and warns); the
+            # model (Fix.lean / Driver.Ops.Compile) answers fix-error.  Outside the property's quantifier (strings of
+            # codes); reported as a finding, not generated.
             res.count("line:%s:%s" % (kind, mode))
         if written == kind or written in ("seq", "sig"):
             ex.line(kind if written in ("seq", "sig") else written, name, s)
@@ -551,6 +556,30 @@ def run(st, tier, seed):
             rq2 = dict(rq); rq2["op"] = "fix-spec"
             reqs.append(rq2)
             meta.append(("spec", r, inp))
+    # directed: a strand separator inside the string of a sequence / strand is not a base: the compile must fail
+    # (formerly swallowed as "name not found" after a half-applied fix, defect F15)
+    seen_prog = set()
+    for b, book, base_text, templates, lines, judged, ftext_canon, tag in cases:
+        if id(b) in seen_prog or len(seen_prog) >= (25 if tier == "quick" else 300):
+            continue
+        seen_prog.add(id(b))
+        stmts_ = [x for x in pilio.read_pil(base_text) if x["k"] in ("strand", "sup") and "_Anon" not in " ".join(x["items"])]
+        if not stmts_:
+            continue
+        tgt = rng.choice(stmts_)
+        L = sum(len(templates.get(i.rstrip("*"), "")) for i in tgt["items"])
+        if L < 2 or any(i.rstrip("*") not in templates for i in tgt["items"]):
+            continue
+        k = rng.randint(1, L - 1)
+        bad = "N" * k + "+" + "N" * (L - k - 1)
+        ftext = "%s %s = %s\n" % ("strand" if tgt["k"] == "strand" else "sequence", tgt["name"], bad)
+        r = impl.compile_bundle(b, "pil", fixed_text=ftext)
+        res.evaluations += 1
+        res.count("directed:plus-inside-nonstructure")
+        if r["ok"]:
+            res.violations.append({"what": "a fixed string containing a strand separator was accepted for a %s (half-applied fix reported as a missing name)" % tgt["k"],
+                                   "input": {"files": b.texts, "entry": b.entry, "includes": b.includes, "fixed": ftext}, "observed": "compile succeeded",
+                                   "expected": "compile fails", "sig": "C12:accepts-bad-fix:separator", "cmd": "pepper-compiler --fixed fixed.fix " + b.entry})
     if drv is not None:
         got = []
         for k in range(0, len(reqs), 1500):
